@@ -32,6 +32,8 @@ def shards(tier):
         {"name": "sstate.torch", "mode": "jit", "backend": "torch", "fn": "sstate", "n": 60 if q else 2000},
         {"name": "big.np.jit", "mode": "jit", "backend": "np", "fn": "big", "n": 1 if q else 15},
         {"name": "big.torch", "mode": "jit", "backend": "torch", "fn": "big", "n": 1 if q else 3},
+        {"name": "forms.sstate.torch", "mode": "jit", "backend": "torch", "fn": "sstate", "n": 40 if q else 1200, "forms": 1},
+        {"name": "forms.maps.torch", "mode": "jit", "backend": "torch", "fn": "maps", "stride": 192 if q else 24, "forms": 1},
     ]
     return out
 
